@@ -27,7 +27,7 @@ var c01Cfgs = []c01Cfg{
 }
 
 var c01Events = []string{
-	"conn H1", "conn H2", "conn C1", "conn C2",
+	"conn H1", "conn H2", "conn C1", "conn C2", "close H1",
 	"upd C1 -", "upd C1 H1", "upd C1 H1,H2", "upd C1 H1,C2", "upd C1 H1,C1,H2", "upd C2 H1", "upd C2 H1,H2", "upd H1 -", "upd H1 C1",
 	"tick 30s", "tick 90s", "tick 130s",
 	"link W1 C1", "link W1 C2", "link W1 H1", "link W2 H2", "link W2 C1",
@@ -104,10 +104,16 @@ func c01BFSFrom(driver string, cfg c01Cfg, depth, shard, nshards int, faults boo
 			Name: name, MaxDepth: depth, Shard: shard, NShards: nshards,
 			New: func() interface{} {
 				w := &world{}
-				w.pw = c01World(driver, cfg, func(s store.Store) store.Store {
-					w.fs = vh.NewFaultStore(s)
-					return w.fs
-				})
+				if faults {
+					w.pw = c01World(driver, cfg, func(s store.Store) store.Store {
+						w.fs = vh.NewFaultStore(s)
+						return w.fs
+					})
+				} else {
+					// the pool holds the driver itself, as in the binary: whatever the pool finds out
+					// about its store by type assertion (optional methods) it finds out here too
+					w.pw = c01World(driver, cfg, nil)
+				}
 				for _, e := range prefix {
 					vh.PoolEvent(w.pw, cast, e)
 				}
@@ -121,13 +127,19 @@ func c01BFSFrom(driver string, cfg c01Cfg, depth, shard, nshards int, faults boo
 					return
 				}
 				before := vh.ReadLedger(w.pw.Raw, cast.Nodes, cast.Accts)
-				start := w.fs.N
+				start := 0
+				if w.fs != nil {
+					start = w.fs.N
+				}
 				var err error
 				if p := vh.Recover(func() { err = vh.PoolEvent(w.pw, cast, ev) }); p != "" {
 					u.Count("panics_seen_not_judged_here", 1)
 					return
 				}
-				calls := w.fs.N - start
+				calls := 0
+				if w.fs != nil {
+					calls = w.fs.N - start
+				}
 				after := vh.ReadLedger(w.pw.Raw, cast.Nodes, cast.Accts)
 				u.Observe(fmt.Sprintf("%s err=%v moved=%v", strings.Fields(ev)[0], err != nil, !before.Equal(after)))
 				if cls, txt := c01Judge(ev, err, before, after, w.pw, cast); cls != "" {
